@@ -387,6 +387,28 @@ impl ObjState for [Link] {
         validate_slice_real_shift(&mut errors, &self[1..], "Link", 0);
         early_err!(errors, "Links");
 
+        // All link references must point inside the network before they are followed
+        for link in self.iter().skip(1) {
+            for (var, name) in [
+                (link.idx_flip, "flip"),
+                (link.idx_next, "next"),
+                (link.idx_next_alt, "next alt"),
+                (link.idx_prev, "prev"),
+                (link.idx_prev_alt, "prev alt"),
+            ] {
+                if var.idx() >= self.len() {
+                    errors.push(anyhow!(
+                        "Link {} index {} = {} is outside of the network (length {})!",
+                        link.idx_curr,
+                        name,
+                        var,
+                        self.len()
+                    ));
+                }
+            }
+        }
+        early_err!(errors, "Links");
+
         for (idx, link) in self.iter().enumerate().skip(1) {
             // Validate flip and curr
             if link.idx_curr.idx() != idx {
